@@ -1,18 +1,23 @@
 #!/bin/sh
-# usage: tools_seeds_all.sh [tier]   re-tests every seeded change (seeded/<id>/) against the check of the property it breaks,
-# on a scratch copy of /repo (VERIF_REPO), so /repo itself is never touched.  One line per seed; exit 1 if one is missed.
-tier=${1:-quick}
-scratch=$(mktemp -d /tmp/seedrepo.XXXXXX)
-trap 'rm -rf "$scratch"' EXIT
-missed=0
-for d in /verif/seeded/*/; do
+# usage: tools_seeds_all.sh [tier] [parallel]   re-tests every seeded change (seeded/<id>/) against the check of the property it breaks,
+# each on its own scratch copy of /repo (VERIF_REPO), so /repo itself is never touched.  One line per seed; exit 1 if one is missed.
+tier=${1:-quick}; par=${2:-3}
+one() {
+  d=$1; tier=$2
   id=$(basename "$d")
-  prop=$(/venv/bin/python -c "import json,sys; print(json.load(open('$d/meta.json'))['breaks_property'])" 2>/dev/null) || continue
-  rm -rf "$scratch/repo"; mkdir -p "$scratch/repo"
+  prop=$(/venv/bin/python -c "import json,sys; print(json.load(open('$d/meta.json'))['breaks_property'])" 2>/dev/null) || exit 0
+  scratch=$(mktemp -d /tmp/seedrepo.XXXXXX)
+  mkdir -p "$scratch/repo"
   git -C ${VP_RUN_REPO:-/repo} archive HEAD | tar -x -C "$scratch/repo"
-  ( cd "$scratch/repo" && git init -q . && git apply "$d/patch.diff" ) || { echo "seed $id: patch does not apply"; missed=1; continue; }
-  out=$(cd /verif && VERIF_REPO="$scratch/repo" VERIF_NO_EVIDENCE=1 ./check "$prop" --tier "$tier" 2>&1); rc=$?
-  echo "seed $id property $prop tier $tier: rc=$rc $(echo "$out" | grep -E 'failing clause' | head -2 | cut -c1-120 | tr '\n' '|')"
-  [ "$rc" = 1 ] || missed=1
-done
-exit $missed
+  if ( cd "$scratch/repo" && git init -q . && git apply "$d/patch.diff" ); then
+    out=$(cd "$(dirname "$0")" && VERIF_REPO="$scratch/repo" VERIF_NO_EVIDENCE=1 ./check "$prop" --tier "$tier" 2>&1); rc=$?
+    echo "seed $id property $prop tier $tier: rc=$rc $(echo "$out" | grep -E 'failing clause' | head -2 | cut -c1-120 | tr '\n' '|')"
+  else
+    echo "seed $id: patch does not apply rc=9"
+  fi
+  rm -rf "$scratch"
+}
+if [ "$1" = "--one" ]; then one "$2" "$3"; exit 0; fi
+ls -d "$(dirname "$0")"/seeded/*/ | xargs -P "$par" -I{} "$0" --one {} "$tier" | tee "$(dirname "$0")/.work/seeds_all.log"
+if grep -v "rc=1 " "$(dirname "$0")/.work/seeds_all.log" | grep -q "^seed"; then exit 1; fi
+exit 0
